@@ -23,6 +23,18 @@ CHECKS = {
   level="Generated programs x generated runtime values; every generated method is executed and compared value-by-value (nil-ness, lengths, order, entry counts, basic values) with an independent reference, panics are violations. Exploration over a sampled space of type shapes and values.",
   note="Trusts the rule model's plan and the reflective executor (harness/drvsrc). Goverter failing to generate or emitting uncompilable code is counted as discarded here (C03 / C01 decide those).",
   design="5/C02"),
+ "C04": dict(
+  engine="E-run",
+  technique="property-based testing with aliasing oracle: rapid programs x rapid values with internal sharing; address-interval disjointness, snapshot comparison, result-mutation metamorphic check, Go race detector on concurrent calls",
+  level="Generated programs and values; an invariant over each call (no overlapping mutable memory outside model-approved share positions, source unchanged, no race report). Schedules are sampled by the runtime, not enumerated.",
+  note="Trusts reflect/unsafe based address analysis in harness/drvsrc and the Go race detector; one known finding (interior pointer under skipCopySameType) is excluded by construction and probed.",
+  design="5/C04"),
+ "C05": dict(
+  engine="E-run + E-gen",
+  technique="property-based testing: rapid struct-pair transformations with field settings; differential of per-field runtime values against the model-selected source path, plus generated negative cases whose generation must fail",
+  level="Generated struct shapes x setting placements x values; per-field value comparison with an independent reference and accept/reject comparison for misuse cases. Exploration.",
+  note="Trusts the rule model for source selection precedence; method-level inheritable flags are compared only inside the method's own body.",
+  design="5/C05"),
 }
 
 def main():
